@@ -133,7 +133,9 @@ impl<R: Read + Seek> ReadBox<&mut R> for TrunBox {
             sample_cts.reserve(sample_count as usize);
         }
 
-        for _ in 0..sample_count {
+        // without per-sample fields there is nothing to read
+        let entries = if sample_size == 0 { 0 } else { sample_count };
+        for _ in 0..entries {
             if TrunBox::FLAG_SAMPLE_DURATION & flags > 0 {
                 let duration = reader.read_u32::<BigEndian>()?;
                 sample_durations.push(duration);
